@@ -3,7 +3,7 @@ import net, gens
 from runner import Script, Cfg
 
 ID = "C03"
-THEOREMS = ["C03_mirror", "C03_mirror_strict", "Env.the_env_ok"]
+THEOREMS = ["C03_mirror", "C03_mirror_strict", "C03_reply_ethernet", "C03_reply_ip", "Env.the_env_ok"]
 MONITORS = ["C03"]
 RULE = ("every reply kind (ARP, echo v4/v6, NA, SYN-ACK, FIN-ACK, data ACK, each UDP/TCP application responder) over both "
         "IP versions with random addresses, MACs and ports including 0 and 65535, STUN change-port with ports 65534/65535; "
